@@ -50,7 +50,11 @@ inductive Fault where
   | evalThrows
   /-- `CommitItems` returns false: validation failed, all new items unregistered, 232-246 -/
   | commitFails
-  /-- `ignore_on_error`: the item was dropped silently during commit; no object, `true` returned, 274-286 -/
+  /-- the committed object carries another name than the requested one (composite name such as `h!!n`
+      re-composed to `h!n`, or a supplied `__name`): all new items are unregistered and `false` is
+      returned (the name check between `CommitItems` and `ActivateItems`, after 86ebd6a) -/
+  | nameMismatch
+  /-- `ignore_on_error`: the item was dropped silently during commit; no object, `true` returned -/
   | ignored
   /-- `ActivateItems` throws after the object was committed, 253 / catch 287-295 -/
   | activateThrows
@@ -80,6 +84,7 @@ def createObject (st : St) (k : Key) (path : Str) (parents : List Key) (fault : 
       -- Evaluate: the ObjectExpression registers the item
       let st2 := { st1 with items := k :: st1.items }
       if fault = .commitFails then (dropFile { st2 with items := st2.items.filter (· ≠ k) }, .fail)
+      else if fault = .nameMismatch then (dropFile { st2 with items := st2.items.filter (· ≠ k) }, .fail)
       else if fault = .ignored then (dropFile { st2 with items := st2.items.filter (· ≠ k) }, .ok)
       else
         -- commit: the object is instantiated and registered
